@@ -426,11 +426,10 @@ pub fn get_op_log_size() -> (u64, u64) {
 
 pub fn read_operations_since(since: u64) -> HashMap<String, OpLogRecord> {
     let mut opps_since = HashMap::new();
-    let f = get_log_file_read_mode(&Oplog::get_op_log_file_name());
-    read_operations_since_from_file(f, since, &mut opps_since);
-
+    // Oldest file first and the current file last, so that the record kept for a key
+    // is its most recent one
     let oplog_entries = get_op_log_entries_by_creation_date();
-    for oplog_file_entry in oplog_entries {
+    for oplog_file_entry in oplog_entries.iter().rev() {
         let file_name = oplog_file_entry.file_name().into_string().unwrap();
         if file_name.ends_with(".op") {
             let full_path = format!("{}/{}", get_op_log_dir_name(), file_name);
@@ -438,6 +437,8 @@ pub fn read_operations_since(since: u64) -> HashMap<String, OpLogRecord> {
             read_operations_since_from_file(f, since, &mut opps_since);
         }
     }
+    let f = get_log_file_read_mode(&Oplog::get_op_log_file_name());
+    read_operations_since_from_file(f, since, &mut opps_since);
 
     opps_since
 }
